@@ -136,6 +136,9 @@ Definition string_to_i16 (strict : bool) (value : str) :=
 Definition string_to_i8 (strict : bool) (value : str) :=
   narrow_s (-128)%Z 127%Z (string_to_i64 strict value).
 
+(* StringToIntOrDefault<T>(value, alternative, strict) *)
+Definition or_default {A} (r : option A) (alt : A) : A := match r with Some v => v | None => alt end.
+
 (* ------------------------------------------------------------------ HexStringToInt (fixed code) *)
 (* uint64_t overload [fix 02]: non-empty, only [0-9a-fA-F], strtoull(.,16) without ERANGE *)
 Definition hex_to_u64 (value : str) : option N :=
